@@ -75,6 +75,9 @@ type frame struct {
 	beforeCtr map[string]int
 	topEntry *Heap
 	goSites map[string]*goSite
+	recvSeen map[int]bool
+	callResults map[string][]Val // results of contracted calls, per callee in execution order of the encoding
+	sset    map[string]map[string]string // string-slice value -> element key -> membership condition (see sset.go)
 }
 
 type closureInfo struct {
@@ -449,7 +452,7 @@ func (f *frame) localsAt(b *ssa.BasicBlock) func(string) (Val, bool) {
 }
 
 func (f *frame) invEnv(li *loopInfo, heap *Heap, phiVals map[*ssa.Phi]Val, at *ssa.BasicBlock) *Env {
-	env := &Env{g: f.g, vars: map[string]Val{}, heap: heap, old: f.entry}
+	env := &Env{g: f.g, vars: map[string]Val{}, heap: heap, old: f.entry, callResults: f.callResults}
 	f.bindParams(env)
 	// current values of loop variables shadow the (entry) parameter values; name0 / old(name) give the entry value
 	for _, in := range li.header.Instrs {
@@ -630,6 +633,7 @@ func (f *frame) exec(st0 *State) (*State, []Val) {
 				}
 				v := f.setReg(phi, iteChain(conds, vals))
 				phiVals[phi] = v
+				f.ssetPhi(phi, v, conds, vals)
 				allFresh := len(vals) > 0
 				for _, t := range vals {
 					if !g.isFresh(t) {
@@ -895,6 +899,15 @@ func (f *frame) loopBackEdge(li *loopInfo, from *ssa.BasicBlock, si int, st *Sta
 			}
 			g.addObl("loop-preserve", f.oblName(fmt.Sprintf("%s-split:%s-exhaustive@b%s", tag, sp.Name, el)), f.props, cond, or(alts...), nil, "the cells of split "+sp.Name+" cover every iteration", lastPos(from))
 		}
+	}
+	for i, cl := range li.spec.BackEdge {
+		t, err := g.trBool(cl.E, env)
+		name := f.oblName(fmt.Sprintf("%s-backedge:%s@b%s", tag, clauseLabel(cl, i), el))
+		if err != nil {
+			g.errorf("%s: %v", name, err)
+			t = "false"
+		}
+		g.addObl("loop-preserve", name, f.clauseProps(cl), cond, t, nil, cl.Src, lastPos(from))
 	}
 	for i, cl := range li.spec.Invs {
 		t, err := g.trBool(cl.E, env)
